@@ -36,11 +36,17 @@ Value& CHRExpression::value(Context & ctx) const
   case Type::NO_TYPE:
     break;
   case Type::INTEGER:
-    v = Value(new Literal(1, (char)(*val.integer())));
-    break;
   case Type::NUMERIC:
-    v = Value(new Literal(1, (char)(*val.numeric())));
+  {
+    /* null gives null; the code must fit in a byte */
+    if (val.isNull())
+      break;
+    Integer c = (val.type() == Type::INTEGER ? *val.integer() : Value::toInteger(*val.numeric()));
+    if (c < 0 || c > 255)
+      throw RuntimeError(EXC_RT_OUT_OF_RANGE);
+    v = Value(new Literal(1, (char)c));
     break;
+  }
   default:
     throw RuntimeError(EXC_RT_FUNC_ARG_TYPE_S, KEYWORDS[oper]);
   }
